@@ -19,9 +19,9 @@ func init() { checks["C03"] = c03{} }
 func (c03) Level() string { return "exploration" }
 func (c03) NumCases(tier string) int {
 	if tier == "thorough" {
-		return 100000
+		return 400000
 	}
-	return 3000
+	return 12000
 }
 func (c03) Rule() string {
 	return "case = one engine, a pool of 3..8 generated templates (emphasis: array filters sort/sort_natural/reverse/uniq/concat/compact/map, loops with cycle, assign/capture of names that shadow bindings, cached includes) and 2..5 binding environments that share slices/maps by reference, plus a seeded history of 2..40 steps: render(t,b) through a random entry point; render aborted by a writer that fails at a random write k; parse-and-render of a fresh copy of a pool source; render of an unrelated pair. Reference model: render is a pure function -- expected[(t,b)] computed in isolation (fresh engine, fresh parse, freshly built equal bindings). After EVERY step: the fault-free result equals expected, and the canonical deep snapshot (types, contents, pointer structure, unexported fields) of every environment equals its snapshot before the history. Non-trivial step: it follows at least one other step; distinct by hash(pool, history prefix)."
@@ -98,6 +98,9 @@ func genC03(r *Rng) *C03Case {
 			g.feat["cycle"], g.feat["assign"], g.feat["capture"], g.feat["nest"] = true, true, true, true
 		}
 		t := g.Template(cs.Envs[0])
+		if i > 0 && r.Chance(0.3) {
+			t = g.Sibling(cs.Trees[r.Intn(i)], cs.Envs[0]) // same inputs and filters as an earlier template, other arguments
+		}
 		cs.Trees = append(cs.Trees, t)
 	}
 	for _, t := range cs.Trees {
